@@ -273,7 +273,7 @@ def jobs(tier):
         for fmt in (3, 4, 1):
             for reps in (1, 2, 3, None) if not th else (1, 2, 3, 4, None):
                 units = [("hours", 0, 50), ("days", 0, 400)]
-                if (greg or th) and fmt != 1:
+                if greg and fmt != 1:
                     units += [("seconds", 0, 4000), ("minutes", 0, 1500), ("weeks", 0, 60)]
                 if fmt == 1:
                     # the interval of start/second-point is (second - start): an exact duration
@@ -283,7 +283,7 @@ def jobs(tier):
                         continue
                     if reps == 4 and unit == "seconds":
                         hi = 1000       # 3 x 4000 s back from 1 January: z3 answers unknown on some branch flips (measured)
-                    for w in (W if (greg and unit in ("hours", "days")) or th else W[2:]):
+                    for w in (W if (greg and (th or unit in ("hours", "days"))) or (th and unit == "days") else W[2:]):
                         J.append(("job_iter", dict(mode=mode, fmt=fmt, reps=reps, unit=unit, lo=lo, hi=hi, ranges=w)))
         if greg or th:
             for fmt in (3, 4):
@@ -298,7 +298,7 @@ def jobs(tier):
             for fmt in (3, 4):
                 for reps in (2, 3, None):
                     for dk in (NOMINAL if th else NOMINAL[:5]):
-                        for m in ((1, 2), (3, 7), (8, 12)) if not th else ((1, 1), (2, 2), (3, 5), (6, 9), (10, 12)):
+                        for m in ((1, 2), (3, 7), (8, 12)) if not (th and greg) else ((1, 1), (2, 2), (3, 5), (6, 9), (10, 12)):
                             J.append(("job_iter_nominal", dict(mode=mode, fmt=fmt, reps=reps, dur_kw=dk, ranges={"M": m})))
     return J
 
@@ -317,7 +317,7 @@ INFO = {
     "bounds": {"quick": {"anchors": "ordinal dates on days 1-2, 59-60, 364-366 (exact) / every calendar date (nominal), any year -1 000 000..999 999, offsets +-3:59, any whole-second time",
                          "intervals": "hours 0..50, days 0..400 (gregorian start/duration and duration/end also seconds 0..4000, minutes 0..1500, weeks 0..60; start/second-point: hours 0..30, days 0..40); nominal (start/duration and duration/end): P1M, P2M, P1M2D, P1Y, P1Y1M",
                          "repetitions": "1, 2, 3 and unbounded (first 4 points)", "modes": "gregorian, 360day (nominal: gregorian)"},
-               "thorough": {"repetitions": "1..4 and unbounded", "modes": "all 4"}},
+               "thorough": {"repetitions": "1..4 and unbounded", "modes": "all 4 (seconds / minutes / weeks intervals and all three anchor windows in gregorian)"}},
     "outside": ["more than 4 repetitions / points", "multi-unit symbolic intervals", "min_point/max_point subsets",
                 "anchors in calendar or week representation for exact intervals"],
     "assumptions": ["nominal single steps (p + interval) are the real additions verified by C05; this check compares the iterator against them"],
